@@ -369,7 +369,7 @@ def rw_R4_for_desugar(text, which, site, log):
     return text
 
 
-def rw_R27_slice_enumerate(text, which, site, log):
+def rw_R27_slice_enumerate(text, which, site, log, byref=False):
     """for (i, x) in S.iter().enumerate() BODY  (S a slice/array of Copy integers)  ->
        for i in 0..S.len() { let x = S[i]; BODY }   (x bound by value: std defines `&u8 op u8` as `*a op b`; this Verus
        panics on bit operators applied to a reference)"""
@@ -393,8 +393,8 @@ def rw_R27_slice_enumerate(text, which, site, log):
         if not m or not mp:
             raise LostAnchor('%s: loop %d is not `for (i, x) in S.iter().enumerate()` (R27)' % (site, n))
         new_head = 'for %s in 0..%s.len() ' % (mp.group(1), m.group(1))
-        text = text[:toks[i].start] + new_head + '{ let %s = %s[%s]; ' % (mp.group(2), m.group(1), mp.group(1)) + text[toks[bo].end:]
-        log.add('R27(slice .iter().enumerate() -> index loop)', '%s loop %d' % (site, n))
+        text = text[:toks[i].start] + new_head + '{ let %s = %s%s[%s]; ' % (mp.group(2), '&' if byref else '', m.group(1), mp.group(1)) + text[toks[bo].end:]
+        log.add('R31(slice .iter().enumerate() -> index loop, element bound by reference)' if byref else 'R27(slice .iter().enumerate() -> index loop)', '%s loop %d' % (site, n))
     return text
 
 
@@ -1103,13 +1103,17 @@ class Unit:
                 if m29:
                     v = m29.group(1)
                     text, n29 = re.subn(r'&mut\s+%s\[' % v, '&mut %s.as_mut_slice()[' % v, text)
+                    # the same auto-referenced: `VEC[a..b].copy_from_slice(..)` is `(&mut VEC[a..b]).copy_from_slice(..)`
+                    text, n29b = re.subn(r'(?<![\w.])%s\[([^\]\[]*\.\.[^\]\[]*)\]\.copy_from_slice\(' % v,
+                                         r'%s.as_mut_slice()[\1].copy_from_slice(' % v, text)
+                    n29 += n29b
                     self.log.add('R29(&mut VEC[range] -> &mut VEC.as_mut_slice()[range])', site, n29)
                     continue
                 m17 = re.match(r'R17\((\w+)\)$', r)
                 if m17:
                     text = rw_R17(text, m17.group(1), site, self.log)
                     continue
-                m = re.match(r'(R4|R12|R27)\(([\d,]+)\)$', r)
+                m = re.match(r'(R4|R12|R27|R31)\(([\d,]+)\)$', r)
                 if not m:
                     raise WeaveError('unknown rewrite ' + r)
                 which = [int(x) for x in m.group(2).split(',')]
@@ -1117,6 +1121,8 @@ class Unit:
                     text = rw_R4_for_desugar(text, which, site, self.log)
                 elif m.group(1) == 'R27':
                     text = rw_R27_slice_enumerate(text, which, site, self.log)
+                elif m.group(1) == 'R31':
+                    text = rw_R27_slice_enumerate(text, which, site, self.log, byref=True)
                 else:
                     text = rw_R12_break_value(text, which, site, self.log)
         return text
@@ -1267,6 +1273,10 @@ class Unit:
                     if md and not unsized:
                         ds = [d.strip() for d in md.group(1).split(',')]
                         keep = [d for d in ds if d in ('Clone', 'Copy', 'PartialEq', 'Eq', 'PartialOrd', 'Ord')]
+                        owns_vec = re.search(r'\bVec\s*<', text) is not None
+                        if owns_vec:
+                            # owned buffers: `Structural` does not apply to Vec; keep only Clone
+                            keep = [d for d in keep if d == 'Clone']
                         if 'PartialEq' in keep and 'Eq' in keep:
                             keep.append('Structural')
                         if keep:
